@@ -33,10 +33,17 @@ def sweep_bound(T, R):
 class GameFacts:
     """Exact facts about a game description (mode independent)."""
 
-    def __init__(self, game):
+    def __init__(self, game, known=None):
+        """known: optional dict(pstar=[Fractions], T=number) for planted games whose exact values are known
+        by construction (too large for the rational solver); such games are stopping by construction."""
         self.game = game
         self.n = len(game["players"])
         self._c = {}
+        self.known = known
+        if known:
+            self._c["pstar"] = ("ok", list(known["pstar"]))
+            self._c["T"] = ("ok", F(known["T"]))
+            self._c["stopping"] = ("ok", True)
 
     def _get(self, key, fn):
         if key not in self._c:
@@ -68,6 +75,8 @@ class GameFacts:
     @property
     def too_slow(self):
         """True if the exact maximal expected absorption time exceeds what is explored for this size."""
+        if self.known:
+            return False
         return self.T > t_limit(self.n)
 
     @property
